@@ -286,6 +286,16 @@ def usage_run(k, sit):
                                 'out': '', 'err': 'assertion failure\n'},
                         'acceptable': False}
         opts += ['-j', '2']
+    elif f == 'golden-output-not-text':
+        # the command prints bytes that are not UTF-8 whatever its input
+        spec['accept'] = {'exit': 1, 'out_hex': '62756720fffe0a', 'out': '',
+                          'err': 'assertion failure\n'}
+        spec['reject'] = {'exit': 0, 'out_hex': 'fffe736174200a', 'out': '',
+                          'err': ''}
+    elif f == 'jobs-zero':
+        opts += ['-j', '0']
+    elif f == 'jobs-negative':
+        opts += ['-j', '-3']
     elif f.startswith('golden-timeout'):
         # every run of the command, the golden one included, exceeds the limit
         spec['sleep_ms'] = 1500
@@ -313,7 +323,9 @@ def usage_run(k, sit):
                                              'match-err-absent',
                                              'match-both-out-absent',
                                              'match-both-err-absent',
-                                             'undecodable-output') and
+                                             'undecodable-output',
+                                             'golden-output-not-text',
+                                             'jobs-zero', 'jobs-negative') and
                        not f.startswith('golden-timeout') else None)
     return r
 
@@ -551,7 +563,7 @@ def main():
                 f'exit status {ur.status}, expected {sit["status"]} '
                 f'({sit["outcome"]}) for {sit}; stdout '
                 f'{ur.stdout.strip()[-120:]!r}', rp)
-        if sit['outcome'] in ('usage', 'nomatch'):
+        if sit['outcome'] in ('usage', 'nomatch', 'noexec'):
             ran = len(ur.cmdlog)
             allowed = 0 if sit['outcome'] == 'usage' else 1
             if ran > allowed:
